@@ -1542,7 +1542,8 @@ fn oracle(cx: &mut Ctx, decl_occ: Option<(usize, usize, String)>, edits: &[(usiz
     if cx.base_run.is_none() {
         cx.base_run = Some(run_trace_forked(&cx.texts, &cx.trace));
     }
-    let r2 = run_trace_forked(&texts2, &cx.trace);
+    // (when the base project does not compile the run-time clauses are not evaluated: no need to run the renamed one)
+    let r2 = if cx.base_run.as_ref().unwrap().is_err() { Err(String::new()) } else { run_trace_forked(&texts2, &cx.trace) };
     let (comp_ok, beh_ok) = match (cx.base_run.as_ref().unwrap(), &r2) {
         // the runtime binds names case-sensitively in places (see the report): a project that spells a
         // reference differently from its declaration does not run as analysed, so run-time behaviour
@@ -1844,6 +1845,9 @@ struct NsW {
     file: usize,
     /// (file, start, name, role)
     toks: Vec<(usize, usize, String, &'static str)>,
+    /// uses (never declarations) of namespace segments and namespaced symbols may be spelled in another case
+    variants: bool,
+    vstate: u64,
 }
 impl NsW {
     fn raw(&mut self, s: &str) {
@@ -1854,22 +1858,64 @@ impl NsW {
         self.texts[self.file].push_str(name);
         self.toks.push((self.file, start, name.to_string(), role));
     }
+    fn vnext(&mut self) -> u64 {
+        // xorshift64*: the spelling choices are a function of the case's seed only
+        self.vstate ^= self.vstate >> 12;
+        self.vstate ^= self.vstate << 25;
+        self.vstate ^= self.vstate >> 27;
+        self.vstate.wrapping_mul(0x2545_F491_4F6C_DD1D) >> 33
+    }
+    /// spelling of one USE of a name (a case variant with probability 1/3 in a `variants` project)
+    fn sp(&mut self, s: &str) -> String {
+        if !self.variants || self.vnext() % 3 != 0 {
+            return s.to_string();
+        }
+        match self.vnext() % 3 {
+            0 => s.to_ascii_uppercase(),
+            1 => s.to_ascii_lowercase(),
+            _ => s.chars().map(|c| if self.vnext() % 2 == 0 { c.to_ascii_uppercase() } else { c.to_ascii_lowercase() }).collect(),
+        }
+    }
     /// a (possibly qualified) use of a namespaced symbol: `A.B.Name` or `Name`
     fn quse(&mut self, path: &[String], qualified: bool, name: &str, role_q: &'static str, role_u: &'static str) {
         if qualified {
             for seg in path {
-                self.id(seg, "ns_qual");
+                let s = self.sp(seg);
+                self.id(&s, "ns_qual");
                 self.raw(".");
             }
-            self.id(name, role_q);
+            let s = self.sp(name);
+            self.id(&s, role_q);
         } else {
-            self.id(name, role_u);
+            let s = self.sp(name);
+            self.id(&s, role_u);
         }
     }
 }
 
-/// Generates one namespace project.  Returns texts, identifier roles, the namespace form and the access style.
-fn gen_ns_project(rng: &mut Rng) -> (Vec<String>, Vec<(usize, usize, String, &'static str)>, &'static str, &'static str) {
+pub struct NsProject {
+    texts: Vec<String>,
+    toks: Vec<(usize, usize, String, &'static str)>,
+    form: &'static str,
+    style: &'static str,
+    /// how the FUNCTION of the namespace is called from outside (the recorded finding C16-ns-func-qualified is
+    /// keyed on it): "qualified" also in a USING project when that one call is written with its full path
+    func_style: &'static str,
+    /// normalised names of the namespace members that are spelled like a segment of the namespace path
+    echo: BTreeSet<String>,
+    /// a segment of the namespace path repeats an earlier one (`A.A`, `A.B.A`)
+    repeated_segment: bool,
+}
+
+/// Generates one namespace project.
+///
+/// `echo_mode`: name coincidences between the segments of a qualified name.  One or two members of the
+/// namespace (STRUCT / alias TYPE, FUNCTION_BLOCK, INTERFACE, FUNCTION) are spelled like a segment of the
+/// namespace path (`NAMESPACE Drive` + `FUNCTION_BLOCK Drive`, used as `Drive.Drive`; case variants in half
+/// of the projects), a later segment of the path may repeat an earlier one (`A.A`, `A.B.A`), and such a member
+/// is reached by its full path also from a USING project (always when it is spelled like the ROOT segment,
+/// which hides it from an unqualified lookup).
+fn gen_ns_project(rng: &mut Rng, echo_mode: bool) -> NsProject {
     let mut used = BTreeSet::new();
     let mut name = |rng: &mut Rng| loop {
         let base = *rng.pick(POOL);
@@ -1880,17 +1926,83 @@ fn gen_ns_project(rng: &mut Rng) -> (Vec<String>, Vec<(usize, usize, String, &'s
     };
     let form = *rng.pick(&["flat", "dotted", "nested2", "nested3", "dotted_nested"]);
     let depth = match form { "flat" => 1, "dotted" | "nested2" => 2, _ => 3 };
-    let path: Vec<String> = (0..depth).map(|_| name(rng)).collect();
+    let mut path: Vec<String> = (0..depth).map(|_| name(rng)).collect();
     let style = *rng.pick(&["qualified", "using_file", "using_pou"]);
     let two_files = rng.bool();
-    let (sample, pack, scale, ctl, mid, alias) = (name(rng), name(rng), name(rng), name(rng), name(rng), name(rng));
+    let (mut sample, mut pack, mut scale, mut ctl, mid, mut alias) = (name(rng), name(rng), name(rng), name(rng), name(rng), name(rng));
     let (fv, fm, ffirst, fsecond) = (name(rng), name(rng), name(rng), name(rng));
     let (pa, lt, fs, fo) = (name(rng), name(rng), name(rng), name(rng));
     let (prog, vp, vs, vc, vn, va) = (name(rng), name(rng), name(rng), name(rng), name(rng), name(rng));
+    // declarations outside the namespace that name its members in every kind of type position
+    let (mut itf, implfb, child, outrec, outal, mk, mka) = (name(rng), name(rng), name(rng), name(rng), name(rng), name(rng), name(rng));
+    let (fp, fq, vo, vch, vi) = (name(rng), name(rng), name(rng), name(rng), name(rng));
+    // a sibling of the innermost namespace with a type of its own (`Outer.Sib.SibT` next to `Outer.Inner.*`)
+    let (sib, mut sibt, vsib) = (name(rng), name(rng), name(rng));
+    let with_sib = matches!(form, "nested2" | "nested3" | "dotted_nested") && rng.bool();
     let with_mid = depth >= 2 && rng.bool();
     let with_alias = rng.bool();
     let list_fields = rng.bool();
-    let mut w = NsW { texts: vec![String::new(); if two_files { 2 } else { 1 }], file: 0, toks: Vec::new() };
+    let with_itf = rng.bool();
+    let with_child = rng.bool();
+    let with_outrec = rng.bool();
+    let with_outal = rng.bool();
+    let with_mk = with_alias && rng.bool();
+    // members of the namespace named by their full path from inside the namespace
+    let inner_qual = rng.chance(1, 3);
+    let variants = echo_mode && rng.bool();
+    let vstate = rng.next() | 1;
+    let mut echo = BTreeSet::new();
+    let mut repeated_segment = false;
+    if echo_mode {
+        let respell = |rng: &mut Rng, s: &str| if variants && rng.chance(1, 2) { case_variant(rng, s) } else { s.to_string() };
+        if depth >= 2 && rng.chance(1, 3) {
+            let j = 1 + rng.below(depth as u64 - 1) as usize;
+            let i = rng.below(j as u64) as usize;
+            path[j] = respell(rng, &path[i].clone());
+            repeated_segment = true;
+        }
+        let mut segs: Vec<String> = Vec::new();
+        for s in &path {
+            if !segs.iter().any(|t| norm(t) == norm(s)) {
+                segs.push(s.clone());
+            }
+        }
+        if with_sib {
+            // a member named like the sibling of its enclosing namespace; the sibling's type named like a segment
+            segs.push(sib.clone());
+        }
+        let mut cands: Vec<&mut String> = vec![&mut sample, &mut pack, &mut ctl, &mut scale];
+        if with_alias {
+            cands.push(&mut alias);
+        }
+        if with_itf {
+            cands.push(&mut itf);
+        }
+        if with_sib {
+            cands.push(&mut sibt);
+        }
+        let want = if rng.chance(1, 3) { 2 } else { 1 };
+        for _ in 0..want {
+            if segs.is_empty() || cands.is_empty() {
+                break;
+            }
+            let seg = segs.remove(rng.below(segs.len() as u64) as usize);
+            let c = cands.remove(rng.below(cands.len() as u64) as usize);
+            *c = respell(rng, &seg);
+            echo.insert(norm(&seg));
+        }
+    }
+    let is_echo = |n: &str| echo.contains(&norm(n));
+    // a member spelled like the root segment is hidden from an unqualified lookup outside the namespace
+    // (the namespace is found first): it is always written with its full path there
+    let root = norm(&path[0]);
+    let q = style == "qualified";
+    let qout = |rng: &mut Rng, n: &str| q || norm(n) == root || (is_echo(n) && rng.bool());
+    let (q_sample, q_pack, q_ctl, q_alias, q_scale) = (qout(rng, &sample), qout(rng, &pack), qout(rng, &ctl), qout(rng, &alias), qout(rng, &scale));
+    let func_style = if q_scale { "qualified" } else { style };
+    // a USING inside the PROGRAM does not reach the declarations before it
+    let file_level = |qs: bool| qs || style == "using_pou";
+    let mut w = NsW { texts: vec![String::new(); if two_files { 2 } else { 1 }], file: 0, toks: Vec::new(), variants, vstate };
     // ---- namespace headers
     let mut open_blocks = 0;
     match form {
@@ -1900,15 +2012,7 @@ fn gen_ns_project(rng: &mut Rng) -> (Vec<String>, Vec<(usize, usize, String, &'s
             w.raw("\n");
             open_blocks = 1;
         }
-        "dotted" => {
-            w.raw("NAMESPACE ");
-            w.id(&path[0], "ns_decl");
-            w.raw(".");
-            w.id(&path[1], "ns_decl");
-            w.raw("\n");
-            open_blocks = 1;
-        }
-        "dotted_nested" => {
+        "dotted" | "dotted_nested" => {
             w.raw("NAMESPACE ");
             w.id(&path[0], "ns_decl");
             w.raw(".");
@@ -1926,12 +2030,24 @@ fn gen_ns_project(rng: &mut Rng) -> (Vec<String>, Vec<(usize, usize, String, &'s
             w.id(&mid, "mid_decl");
             w.raw(" : DINT;\nEND_TYPE\n");
         }
+        if with_sib && i == depth - 1 && open_blocks > 0 {
+            w.raw("NAMESPACE ");
+            w.id(&sib, "ns_decl");
+            w.raw("\nTYPE ");
+            w.id(&sibt, "type_decl");
+            w.raw(" : DINT;\nEND_TYPE\nEND_NAMESPACE\n");
+        }
         w.raw("NAMESPACE ");
         w.id(seg, "ns_decl");
         w.raw("\n");
         open_blocks += 1;
     }
     let mid_declared = with_mid && w.toks.iter().any(|t| t.3 == "mid_decl");
+    // a use of a sibling member inside the namespace: unqualified, or (inner_qual) by its full path
+    let inner = |w: &mut NsW, rng: &mut Rng, n: &str, role: &'static str| {
+        let full = inner_qual && rng.bool();
+        w.quse(&path, full, n, role, role);
+    };
     // ---- declarations of the innermost namespace
     w.raw("TYPE ");
     w.id(&sample, "type_decl");
@@ -1953,15 +2069,15 @@ fn gen_ns_project(rng: &mut Rng) -> (Vec<String>, Vec<(usize, usize, String, &'s
         w.raw(", ");
         w.id(&fsecond, "field_decl");
         w.raw(" : ");
-        w.id(&sample, "type_use_nslevel");
+        inner(&mut w, rng, &sample, "type_use_nslevel");
         w.raw(";\n");
     } else {
         w.raw(" : ");
-        w.id(&sample, "type_use_nslevel");
+        inner(&mut w, rng, &sample, "type_use_nslevel");
         w.raw(";\n    ");
         w.id(&fsecond, "field_decl");
         w.raw(" : ");
-        w.id(&sample, "type_use_nslevel");
+        inner(&mut w, rng, &sample, "type_use_nslevel");
         w.raw(";\n");
     }
     w.raw("END_STRUCT\nEND_TYPE\n\n");
@@ -1969,8 +2085,13 @@ fn gen_ns_project(rng: &mut Rng) -> (Vec<String>, Vec<(usize, usize, String, &'s
         w.raw("TYPE ");
         w.id(&alias, "type_decl");
         w.raw(" : ");
-        w.id(&sample, "type_use_nslevel");
+        inner(&mut w, rng, &sample, "type_use_nslevel");
         w.raw(";\nEND_TYPE\n\n");
+    }
+    if with_itf {
+        w.raw("INTERFACE ");
+        w.id(&itf, "itf_decl");
+        w.raw("\nEND_INTERFACE\n\n");
     }
     w.raw("FUNCTION ");
     w.id(&scale, "func_decl");
@@ -1979,7 +2100,7 @@ fn gen_ns_project(rng: &mut Rng) -> (Vec<String>, Vec<(usize, usize, String, &'s
     w.raw(" : DINT;\nEND_VAR\nVAR\n    ");
     w.id(&lt, "local_decl");
     w.raw(" : ");
-    w.id(&sample, "type_use_pou_in_ns");
+    inner(&mut w, rng, &sample, "type_use_pou_in_ns");
     w.raw(";\nEND_VAR\n    ");
     w.id(&lt, "local_use");
     w.raw(".");
@@ -1999,7 +2120,7 @@ fn gen_ns_project(rng: &mut Rng) -> (Vec<String>, Vec<(usize, usize, String, &'s
     w.raw(" : DINT;\nEND_VAR\nVAR\n    ");
     w.id(&fs, "member_decl");
     w.raw(" : ");
-    w.id(&sample, "type_use_pou_in_ns");
+    inner(&mut w, rng, &sample, "type_use_pou_in_ns");
     w.raw(";\nEND_VAR\n    ");
     w.id(&fs, "member_use");
     w.raw(".");
@@ -2021,23 +2142,79 @@ fn gen_ns_project(rng: &mut Rng) -> (Vec<String>, Vec<(usize, usize, String, &'s
         w.raw("END_NAMESPACE\n");
     }
     w.raw("\n");
-    // ---- the user program
+    // ---- the user file
     if two_files {
         w.file = 1;
     }
-    let q = style == "qualified";
     let using = |w: &mut NsW| {
         w.raw("USING ");
         for (i, seg) in path.iter().enumerate() {
             if i > 0 {
                 w.raw(".");
             }
-            w.id(seg, "ns_using");
+            let s = w.sp(seg);
+            w.id(&s, "ns_using");
         }
         w.raw(";\n");
     };
     if style == "using_file" {
         using(&mut w);
+    }
+    // ---- declarations outside the namespace: its members in the type positions of a STRUCT field, an array
+    // element, an alias, a function result and input, EXTENDS and IMPLEMENTS
+    if with_outrec {
+        w.raw("TYPE ");
+        w.id(&outrec, "otype_decl");
+        w.raw(" : STRUCT\n    ");
+        w.id(&fp, "ofield_decl");
+        w.raw(" : ");
+        w.quse(&path, file_level(q_sample), &sample, "type_use_qual", "type_use_using");
+        w.raw(";\n    ");
+        w.id(&fq, "ofield_decl");
+        w.raw(" : ARRAY[0..1] OF ");
+        w.quse(&path, file_level(q_pack), &pack, "type_use_qual", "type_use_using");
+        w.raw(";\nEND_STRUCT\nEND_TYPE\n\n");
+    }
+    if with_outal {
+        w.raw("TYPE ");
+        w.id(&outal, "otype_decl");
+        w.raw(" : ");
+        if with_alias {
+            w.quse(&path, file_level(q_alias), &alias, "type_use_qual", "type_use_using");
+        } else {
+            w.quse(&path, file_level(q_sample), &sample, "type_use_qual", "type_use_using");
+        }
+        w.raw(";\nEND_TYPE\n\n");
+    }
+    if with_mk {
+        w.raw("FUNCTION ");
+        w.id(&mk, "ofunc_decl");
+        w.raw(" : ");
+        w.quse(&path, file_level(q_alias), &alias, "type_use_qual", "type_use_using");
+        w.raw("\nVAR_INPUT\n    ");
+        w.id(&mka, "local_decl");
+        w.raw(" : ");
+        w.quse(&path, file_level(q_alias), &alias, "type_use_qual", "type_use_using");
+        w.raw(";\nEND_VAR\n    ");
+        w.id(&mk, "ofunc_ret");
+        w.raw(" := ");
+        w.id(&mka, "local_use");
+        w.raw(";\nEND_FUNCTION\n\n");
+    }
+    if with_child {
+        w.raw("FUNCTION_BLOCK ");
+        w.id(&child, "ofb_decl");
+        w.raw(" EXTENDS ");
+        w.quse(&path, file_level(q_ctl), &ctl, "fb_use_qual", "fb_use_using");
+        w.raw("\nEND_FUNCTION_BLOCK\n\n");
+    }
+    if with_itf {
+        // (IMPLEMENTS does not look through USING: the interface is always named by its full path)
+        w.raw("FUNCTION_BLOCK ");
+        w.id(&implfb, "ofb_decl");
+        w.raw(" IMPLEMENTS ");
+        w.quse(&path, true, &itf, "itf_use_qual", "itf_use_qual");
+        w.raw("\nEND_FUNCTION_BLOCK\n\n");
     }
     w.raw("PROGRAM ");
     w.id(&prog, "prog_decl");
@@ -2049,21 +2226,52 @@ fn gen_ns_project(rng: &mut Rng) -> (Vec<String>, Vec<(usize, usize, String, &'s
     w.raw("VAR\n    ");
     w.id(&vp, "local_decl");
     w.raw(" : ");
-    w.quse(&path, q, &pack, "type_use_qual", "type_use_using");
+    w.quse(&path, q_pack, &pack, "type_use_qual", "type_use_using");
     w.raw(";\n    ");
     w.id(&vs, "local_decl");
     w.raw(" : ");
-    w.quse(&path, q, &sample, "type_use_qual", "type_use_using");
+    w.quse(&path, q_sample, &sample, "type_use_qual", "type_use_using");
     w.raw(";\n    ");
     w.id(&vc, "local_decl");
     w.raw(" : ");
-    w.quse(&path, q, &ctl, "fb_use_qual", "fb_use_using");
+    w.quse(&path, q_ctl, &ctl, "fb_use_qual", "fb_use_using");
     w.raw(";\n");
     if with_alias {
         w.raw("    ");
         w.id(&va, "local_decl");
         w.raw(" : ");
-        w.quse(&path, q, &alias, "type_use_qual", "type_use_using");
+        w.quse(&path, q_alias, &alias, "type_use_qual", "type_use_using");
+        w.raw(";\n");
+    }
+    if with_outrec {
+        w.raw("    ");
+        w.id(&vo, "local_decl");
+        w.raw(" : ");
+        w.id(&outrec, "otype_use");
+        w.raw(";\n");
+    }
+    if with_child {
+        w.raw("    ");
+        w.id(&vch, "local_decl");
+        w.raw(" : ");
+        w.id(&child, "ofb_use");
+        w.raw(";\n");
+    }
+    if with_itf {
+        w.raw("    ");
+        w.id(&vi, "local_decl");
+        w.raw(" : ");
+        w.id(&implfb, "ofb_use");
+        w.raw(";\n");
+    }
+    if with_sib {
+        // (a USING of the inner namespace does not reach its sibling: always by the full path)
+        let mut sp = path[..depth - 1].to_vec();
+        sp.push(sib.clone());
+        w.raw("    ");
+        w.id(&vsib, "local_decl");
+        w.raw(" : ");
+        w.quse(&sp, true, &sibt, "type_use_qual", "type_use_qual");
         w.raw(";\n");
     }
     w.raw("    ");
@@ -2085,11 +2293,39 @@ fn gen_ns_project(rng: &mut Rng) -> (Vec<String>, Vec<(usize, usize, String, &'s
     w.raw(".");
     w.id(&fv, "field_use_out");
     w.raw(";\n    ");
+    if with_outrec {
+        // (whole-struct assignments: a field access THROUGH a field whose type is named by a qualified name is
+        // rejected by the analysis, `field access requires struct` - not rename's business)
+        w.id(&vo, "local_use");
+        w.raw(".");
+        w.id(&fp, "ofield_use");
+        w.raw(" := ");
+        w.id(&vs, "local_use");
+        w.raw(";\n    ");
+        w.id(&vp, "local_use");
+        w.raw(" := ");
+        w.id(&vo, "local_use");
+        w.raw(".");
+        w.id(&fq, "ofield_use");
+        w.raw("[1];\n    ");
+    }
+    if with_child {
+        w.id(&vch, "local_use");
+        w.raw("();\n    ");
+    }
+    if with_mk {
+        w.id(&va, "local_use");
+        w.raw(" := ");
+        w.id(&mk, "ofunc_call");
+        w.raw("(");
+        w.id(&va, "local_use");
+        w.raw(");\n    ");
+    }
     w.id(&vc, "local_use");
     w.raw("();\n    ");
     w.id(&vn, "local_use");
     w.raw(" := (");
-    w.quse(&path, q, &scale, "func_call_qual", "func_call_using");
+    w.quse(&path, q_scale, &scale, "func_call_qual", "func_call_using");
     w.raw("(");
     w.id(&vn, "local_use");
     w.raw(") + ");
@@ -2103,25 +2339,36 @@ fn gen_ns_project(rng: &mut Rng) -> (Vec<String>, Vec<(usize, usize, String, &'s
     w.raw(".");
     w.id(&fo, "member_use_out");
     w.raw(") MOD 997;\nEND_PROGRAM\n");
-    (w.texts, w.toks, form, style)
+    NsProject { texts: w.texts, toks: w.toks, form, style, func_style, echo, repeated_segment }
 }
 
-/// One namespace case: for every role one random identifier x a fresh name; the property's statement is
-/// evaluated on the implementation (`# nsorc` lines).  The model is not consulted (no `ren` lines).
-fn run_ns_project(n: u64, rng: &mut Rng, out: &mut Out, dump: bool) -> Result<(), String> {
-    let (texts, toks, form, style) = gen_ns_project(rng);
+/// One namespace project: for every (identifier role, spelled-like-a-namespace-segment or not) class one random
+/// identifier x a fresh name; the property's statement is evaluated on the implementation (`# nsorc` lines).
+/// The model is not consulted (no `ren` lines).
+fn run_ns_sub(n: u64, sub: usize, rng: &mut Rng, echo_mode: bool, out: &mut Out, dump: bool) -> Result<(), String> {
+    let NsProject { texts, toks, form, style, func_style, echo, repeated_segment } = gen_ns_project(rng, echo_mode);
     if dump {
         for (i, t) in texts.iter().enumerate() {
-            println!("===== case {n} (namespace, {form}, {style}) file {i}\n{t}");
+            println!("===== case {n} sub {sub} (namespace, {form}, {style}) file {i}\n{t}");
         }
     }
     let db = make_db(&texts);
-    out.line(format!("case {n}"));
-    out.line(format!("# namespace-project form={form} style={style} files={}", texts.len()));
+    out.line(format!(
+        "# namespace-project sub={sub} form={form} style={style} files={} echo={} repeated_segment={}",
+        texts.len(), echo.len(), repeated_segment as u8
+    ));
+    // the project text, so that a replay file shows the failing input
+    for (i, t) in texts.iter().enumerate() {
+        for l in t.lines() {
+            out.line(format!("# nssrc sub={sub} f{i}| {l}"));
+        }
+    }
     if let Some(e) = has_error(&db, texts.len()) {
         out.count("ns_skipped_project_with_error_diagnostic");
-        out.line(format!("# nsskip {}", e.replace('\n', " ")));
-        out.line("end");
+        if echo_mode {
+            out.count("ns_echo_skipped_project_with_error_diagnostic");
+        }
+        out.line(format!("# nsskip sub={sub} {}", e.replace('\n', " ")));
         return Ok(());
     }
     let idents: Vec<BTreeSet<(usize, usize)>> = texts.iter().map(|t| ident_tokens(t)).collect();
@@ -2139,12 +2386,17 @@ fn run_ns_project(n: u64, rng: &mut Rng, out: &mut Out, dump: bool) -> Result<()
     if let Some(Err(_)) = &cx.base_run {
         out.count("ns_project_not_compiled_by_runtime");
     }
-    let mut by_role: BTreeMap<&'static str, Vec<usize>> = BTreeMap::new();
+    let is_ns_role = |r: &str| r.starts_with("ns_");
+    let is_echo = |t: &(usize, usize, String, &'static str)| !is_ns_role(t.3) && echo.contains(&norm(&t.2));
+    let mut by_role: BTreeMap<(&'static str, bool), Vec<usize>> = BTreeMap::new();
     for (i, t) in toks.iter().enumerate() {
-        by_role.entry(t.3).or_default().push(i);
+        by_role.entry((t.3, is_echo(t))).or_default().push(i);
+    }
+    if !echo.is_empty() {
+        out.count("ns_echo_projects");
     }
     let mut k = 0;
-    for (role, list) in by_role.iter() {
+    for ((role, ech), list) in by_role.iter() {
         let (f, start, name, _) = toks[*rng.pick(list)].clone();
         k += 1;
         let new_name = format!("zq{k}N");
@@ -2154,11 +2406,56 @@ fn run_ns_project(n: u64, rng: &mut Rng, out: &mut Out, dump: bool) -> Result<()
             Ok(None) => "refused".to_string(),
             Ok(Some(edits)) => {
                 let me = edits.iter().any(|(ef, es, _, _)| *ef == f && *es == start);
-                format!("accepted edits={} self={} {}", edits.len(), me as u8, oracle(&mut cx, Some((f, start, name.clone())), &edits, &new_name))
+                // "edits that each replace one identifier occurrence" of the renamed symbol: by construction every
+                // non-namespace symbol of the project has its own name (a namespace member may only share its name
+                // with segments of the namespace path), so the occurrences of the symbol under the cursor are
+                // exactly the non-segment identifiers of that name
+                let occ = if is_ns_role(role) {
+                    String::new()
+                } else {
+                    let want: BTreeSet<(usize, usize)> =
+                        toks.iter().filter(|t| !is_ns_role(t.3) && norm(&t.2) == norm(&name)).map(|t| (t.0, t.1)).collect();
+                    let got: BTreeSet<(usize, usize)> = edits.iter().map(|e| (e.0, e.1)).collect();
+                    let show = |set: Vec<&(usize, usize)>| {
+                        set.iter()
+                            .map(|(ef, es)| {
+                                let t = toks.iter().find(|t| t.0 == *ef && t.1 == *es);
+                                format!("f{ef}:{es}:{}:{}", t.map(|t| t.2.as_str()).unwrap_or("?"), t.map(|t| t.3).unwrap_or("not-an-identifier"))
+                            })
+                            .collect::<Vec<_>>()
+                            .join(",")
+                    };
+                    if want == got {
+                        " occ=1".to_string()
+                    } else {
+                        format!(" occ=0 extra=[{}] missing=[{}]", show(got.difference(&want).collect()), show(want.difference(&got).collect()))
+                    }
+                };
+                format!("accepted edits={} self={}{} {}", edits.len(), me as u8, occ, oracle(&mut cx, Some((f, start, name.clone())), &edits, &new_name))
             }
         };
         out.count(&format!("ns_{}", verdict.split(' ').next().unwrap_or("?")));
-        out.line(format!("# nsorc role={role} style={style} form={form} at={f}:{off} new={new_name} {}", verdict.replace('\n', " ")));
+        if *ech {
+            out.count(&format!("ns_echo_request_{role}"));
+        }
+        let st = if role.starts_with("func_") { func_style } else { style };
+        out.line(format!(
+            "# nsorc role={role} style={st} form={form} sub={sub} echo={} at={f}:{off} old={name} new={new_name} {}",
+            *ech as u8,
+            verdict.replace('\n', " ")
+        ));
+    }
+    out.count("ns_projects");
+    Ok(())
+}
+
+/// One namespace case: a project with all names distinct, then two projects with name coincidences between the
+/// segments of qualified names (each from its own random stream, so that adding one does not change the others).
+fn run_ns_project(n: u64, seed: u64, out: &mut Out, dump: bool) -> Result<(), String> {
+    out.line(format!("case {n}"));
+    for sub in 0..3usize {
+        let mut rng = Rng::for_case(seed ^ (0x6e73_0000 + sub as u64), n);
+        run_ns_sub(n, sub, &mut rng, sub > 0, out, dump)?;
     }
     out.count("ns_cases");
     out.line("end");
@@ -2290,16 +2587,16 @@ pub fn run(args: &Args) -> i32 {
         run_witnesses(&mut out);
     }
     for n in args.case_numbers() {
-        let mut rng = Rng::for_case(args.seed, n);
-        // every 8th case is a namespace project (oracle only)
+        // every 8th case is a namespace case (three projects, oracle only)
         if n % 8 == 7 {
-            if let Err(e) = run_ns_project(n, &mut rng, &mut out, args.extra.contains_key("dump")) {
+            if let Err(e) = run_ns_project(n, args.seed, &mut out, args.extra.contains_key("dump")) {
                 eprintln!("case {n}: {e}");
                 return 3;
             }
             out.count("cases");
             continue;
         }
+        let mut rng = Rng::for_case(args.seed, n);
         let p = gen_project(&mut rng);
         if args.extra.contains_key("dump") {
             let rd = render(&p);
